@@ -78,7 +78,7 @@ fn case_close_during_nested_flush(out: &mut CaseOut, seed: u64, idx: u64) {
     let mut counter = 0u64;
     let mut put = |db: &DB, model: &mut BTreeMap<Vec<u8>, Vec<u8>>, counter: &mut u64| -> bool {
         *counter += 1;
-        let k = format!("k{:03}", *counter % 40).into_bytes();
+        let k = format!("k{:03}", (*counter * 17) % 40).into_bytes(); // every memtable spans the whole key range
         let v = format!("v{}-{}", *counter, "z".repeat(40)).into_bytes();
         let _g = watch::enter("put(owner)");
         if db.put(WriteOptions::default(), k.clone(), v.clone()).is_ok() {
@@ -88,22 +88,27 @@ fn case_close_during_nested_flush(out: &mut CaseOut, seed: u64, idx: u64) {
             false
         }
     };
-    // overlapping level-0 files until the first table compaction starts and parks in its merge
+    // Overlapping level-0 files until the first table compaction starts and parks at its first
+    // merge step. This thread only writes while no immutable memtable is pending: such a put can
+    // rotate the memtable but never has to wait for a flush that the parked thread cannot do.
     let gate_a = d.arm(COMPACTOR, "compact.step", 1);
-    for _ in 0..6000 {
-        if d.is_arrived(gate_a) || !put(&db, &mut model, &mut counter) {
+    let deadline = std::time::Instant::now() + Duration::from_secs(15);
+    while !d.is_arrived(gate_a) && std::time::Instant::now() < deadline {
+        watch::tick();
+        if db.verif_probe().has_immutable_memtable {
+            std::thread::sleep(Duration::from_micros(200));
+            continue;
+        }
+        if !put(&db, &mut model, &mut counter) {
             break;
         }
     }
-    let in_merge = d.wait_arrived(gate_a, Duration::from_secs(5));
+    let in_merge = d.wait_arrived(gate_a, Duration::from_secs(2));
     // one memtable rotation while the compaction is parked: an immutable memtable is pending
-    let rot0 = d.note_count("mem.rotate");
     let mut rotated = false;
     if in_merge {
         for _ in 0..400 {
-            // (a memtable that was rotated just before the compaction parked is as good: writing
-            // on would wait for its flush, which the parked thread cannot do)
-            if db.verif_probe().has_immutable_memtable || d.note_count("mem.rotate") > rot0 {
+            if db.verif_probe().has_immutable_memtable {
                 rotated = true;
                 break;
             }
@@ -112,6 +117,8 @@ fn case_close_during_nested_flush(out: &mut CaseOut, seed: u64, idx: u64) {
             }
         }
     }
+    let shape_at_arming: Vec<usize> = (0..7).map(|l| db.verif_files().iter().filter(|f| f.level == l).count()).collect();
+    let puts_in_phase_0 = counter;
     let gate_b = d.arm(COMPACTOR, "flush.after_build", 1);
     d.release(gate_a);
     let in_nested_flush = rotated && d.wait_arrived(gate_b, Duration::from_secs(10));
@@ -146,7 +153,7 @@ fn case_close_during_nested_flush(out: &mut CaseOut, seed: u64, idx: u64) {
         out.add("nested_flush_window_not_reached", 1);
     }
     let _ = DB::destroy_database(options(&fs, &db_path, memtable));
-    out.sample = Some(json!({"family": "close-during-nested-flush", "ctx": ctx, "compaction_parked_in_merge": in_merge, "memtable_rotated_meanwhile": rotated, "nested_flush_reached": in_nested_flush}));
+    out.sample = Some(json!({"family": "close-during-nested-flush", "ctx": ctx, "compaction_parked_in_merge": in_merge, "memtable_rotated_meanwhile": rotated, "nested_flush_reached": in_nested_flush, "files_per_level_at_arming": shape_at_arming, "puts_before_arming": puts_in_phase_0, "picks": d.note_count("compaction.pick"), "rotations": d.note_count("mem.rotate")}));
 }
 
 fn n_spin_cases(tier: &str) -> u64 {
